@@ -97,25 +97,34 @@ func expectedOf(entries []Entry, now, interval int64, q *big.Rat, bonded *big.In
 	}
 }
 
-// explain tries alternative (wrong) readings; if the observation conforms to one of them its name is
-// appended to the fingerprint so that different root causes get different fingerprints.
-func explain(o observed, alts []altReading) string {
+// refine tries alternative (wrong) readings of the statement on a mismatch; if the observation conforms
+// to one of them (first match in the given order, only readings whose input really differs are tried)
+// the fingerprint becomes the name of that reading, so that one root cause has one fingerprint.
+func refine(fp string, o observed, alts []altReading) string {
+	if fp == "" || strings.Contains(fp, ":exact-half-crossing") || fp == "price-error:no-fresh-reports-and-zero-power-quorum" {
+		return fp
+	}
 	for _, alt := range alts {
+		if !alt.Applicable {
+			continue
+		}
 		a, v, med := expectedOf(alt.Entries, alt.Now, alt.Interval, alt.Q, alt.Bonded)
-		if fp, _ := judge(a, v, med, o); fp == "" && len(v.Want) == 1 {
-			return ":as-if-" + alt.Name
+		fp2, _ := judge(a, v, med, o)
+		if (fp2 == "" && len(v.Want) == 1) || (fp2 == "price-error:no-fresh-reports-and-zero-power-quorum") {
+			return alt.Name
 		}
 	}
-	return ""
+	return fp
 }
 
 type altReading struct {
-	Name     string
-	Entries  []Entry
-	Now      int64
-	Interval int64
-	Q        *big.Rat
-	Bonded   *big.Int
+	Name       string
+	Applicable bool
+	Entries    []Entry
+	Now        int64
+	Interval   int64
+	Q          *big.Rat
+	Bonded     *big.Int
 }
 
 // EntryJSON is the replay-file form of an Entry.
